@@ -4,6 +4,7 @@ import (
 	"bufio"
 	"fmt"
 	"math"
+	"os"
 
 	"github.com/RoaringBitmap/roaring"
 	segment "github.com/blugelabs/bluge_segment_api"
@@ -365,6 +366,9 @@ func (w *World) buildNew(i int, sd *SegDef) (*WSeg, *Fail) {
 	}
 	ws.Orig = seg
 	ws.Seg = seg
+	if memLog && len(docs) > 0 && int(ws.NewSize)/len(docs) > 300000 {
+		fmt.Fprintf(os.Stderr, "MEMLOG build of %d docs -> %d bytes (%d bytes/doc)\n", len(docs), ws.NewSize, int(ws.NewSize)/len(docs))
+	}
 	var perr error
 	ws.Bytes, ws.WriteRet, pi, perr = Persist(seg, w.Sched)
 	if pi != nil || perr != nil {
